@@ -37,7 +37,7 @@ ASSUMPTIONS = [
 
 def run(ctx: Ctx):
   m = model(ctx)
-  for r in (r1, r2, r3, r4, r5, r7, r8, r9, r10, r11):
+  for r in (r1, r2, r3, r4, r5, r7, r8, r9, r10, r11, r13):
     ctx.guard(r, m)
   from mlmverif.props import c04
   ctx.include('R-C05-6', '"never an indefinite wait": the queue\'s monitor'
@@ -828,10 +828,62 @@ def r11(ctx: Ctx, m):
   ctx.floor(rule, 2, n)
 
 
+def r13(ctx: Ctx, m):
+  rule = 'R-C05-13'
+  ctx.rule(rule, '"every consumer observes that exception" also on a queue configured to SKIP errors: skipping is about a failing'
+           ' element, not about the recorded failure of the stream. Where a consumer method swallows an exception of the'
+           ' non-blocking attempt under `ignore_error` (break / continue / return instead of raising), the condition also'
+           ' tests that the exception is not the recorded one (`e is not self._exception`) — the attempt re-raises the recorded'
+           ' failure once the queue is exhausted; swallowed, get_batch() returns [] for ever and the iterator built on it'
+           ' pops from its empty cache (IndexError)')
+  n = 0
+  reraisers = set()
+  for fi in m.methods():
+    for r_ in ast.walk(fi.node):
+      if isinstance(r_, ast.Raise) and r_.exc is not None and any(
+          is_self_attr(y) and y.attr in ('exception', '_exception') for y in ast.walk(r_.exc)):
+        reraisers.add(fi.name)
+  for fi in m.methods():
+    if fi.name.endswith('enqueue_from_iterator'):
+      continue      # the producers skip failures of THEIR iterator (R-C12-20 decides what they may skip)
+    for t in ast.walk(fi.node):
+      if not isinstance(t, ast.Try):
+        continue
+      if not any(isinstance(c, ast.Call) and isinstance(c.func, ast.Attribute) and is_self_attr(c.func) and c.func.attr in reraisers
+                 for b in t.body for c in ast.walk(b)):
+        continue
+      for h in t.handlers:
+        if not h.name:
+          continue
+        for cond in ast.walk(h):
+          if not (isinstance(cond, ast.If) and any(is_self_attr(y, 'ignore_error') for y in ast.walk(cond.test))):
+            continue
+          swallows = any(isinstance(y, (ast.Break, ast.Continue, ast.Return)) for b in cond.body for y in ast.walk(b))
+          if not swallows:
+            continue
+          n += 1
+          lets_through = any(isinstance(c, ast.Compare) and len(c.ops) == 1 and isinstance(c.ops[0], (ast.Is, ast.IsNot)) and (
+              {unparse(c.left), unparse(c.comparators[0])} & {'self._exception', 'self.exception'}) and h.name in (
+                  unparse(c.left), unparse(c.comparators[0])) for c in ast.walk(cond.test))
+          what = f'{fi.qualname}: error skipping never swallows the recorded failure of the stream'
+          if lets_through:
+            ctx.ok(rule, fi, what, cond.test)
+          else:
+            ctx.fail(rule, fi, what,
+                     f'`{unparse(cond.test)[:80]}` in {fi.qualname} swallows ANY exception of the attempt when ignore_error is set —'
+                     ' also the recorded producer / stop failure the attempt re-raises once the queue is exhausted: the batch'
+                     ' consumer gets [] for ever, the iterator raises IndexError from its empty cache, nobody sees the failure',
+                     node=cond.test)
+  ctx.floor(rule, 1, n)
+
+
 from mlmverif.selfcheck import B, OK  # noqa: E402
 
 _F = 'utils/iter_utils.py'
 VARIANTS = [
+    B('revert-batch-consumer-swallows-the-recorded-failure', _F,
+      "              not exhausted\n              and self.ignore_error\n              and (result or e is not self._exception)\n          ):",
+      "              not exhausted\n              and self.ignore_error\n          ):", 'R-C05-13'),
     B('revert-get-takes-an-empty-typed-failure-for-an-empty-buffer', _F,
       "          if e is self._exception:\n            # The enqueuer failed with this very error: not an empty buffer.\n            raise\n          logging.debug(\n              'chainable: %s', f'\"{self.name}\" dequeue empty, waiting'",
       "          logging.debug(\n              'chainable: %s', f'\"{self.name}\" dequeue empty, waiting'", 'R-C05-11'),
